@@ -34,7 +34,7 @@ static const char *c_opname(int k)
     return "?";
 }
 
-enum { CF_K, CF_STRAT, CF_SSEED, CF_JUNK, CF_NBLK, CF_INIT0, CF_INIT1, CF_INIT2, CF_INIT3, CF_MAINKEEPS, CF_PCTD, CF_SWITCH_PM };
+enum { CF_K, CF_STRAT, CF_SSEED, CF_JUNK, CF_NBLK, CF_INIT0, CF_INIT1, CF_INIT2, CF_INIT3, CF_MAINKEEPS, CF_PCTD, CF_SWITCH_PM, CF_SELFREF };
 
 #define MAXT 4
 #define NOBJ 2                  /* shared and weak pointer objects per task */
@@ -193,6 +193,11 @@ static int on_yield(void)
         PROBE("sched_yield_executed");
         EVT("yield", cur + 1, 0, 0);
         fiber_yield();
+    } else {
+        /* main context (setup or epilogue): no task is running, so library code that yields waits for itself */
+        static unsigned solo; static uint64_t solo_run = (uint64_t)-1;
+        if (solo_run != (uint64_t)g_run.run_index) { solo_run = (uint64_t)g_run.run_index; solo = 0; }
+        if (++solo > 1000) { g_inlib = 0; g_cur_ctx = "liveness"; VIOL("no_progress", "library code yielded the processor 1000 times outside any task (setup or epilogue): it waits for itself"); }
     }
     return 0;
 }
@@ -221,6 +226,10 @@ static void on_free(int id, void *ptr)
     }
 }
 
+/* an allocation may keep a weak back-reference to itself; its clear callback (which runs in whichever thread drops the
+ * last owner) then tries to lock through it - that must fail, the last owner is gone - and drops it */
+static cstl_weak_ptr_t backref[NBLK]; static int has_backref[NBLK];
+
 static void clear_common(int b, void *ptr)
 {
     CB_ENTER();
@@ -237,6 +246,15 @@ static void clear_common(int b, void *ptr)
         VIOL("cleared_while_owned", "the clear callback of allocation %d ran while a shared pointer that definitely owns it exists (owner mask %x%08x)", b, own[1], own[0]);
     }
     cleared[b] = 1;
+    if (has_backref[b]) {
+        cstl_shared_ptr_t tmp; const void *got;
+        has_backref[b] = 0;
+        cstl_shared_ptr_init(&tmp);
+        g_inlib = 1; cstl_weak_ptr_lock(&backref[b], &tmp); got = cstl_shared_ptr_get_const(&tmp); g_inlib = 0;
+        if (got != NULL) { g_cur_ctx = "clear"; VIOL("lock_yields_dead_memory", "a lock through the allocation's own weak back-reference, made from its clear callback, yielded an owner"); }
+        g_inlib = 1; cstl_shared_ptr_reset(&tmp); cstl_weak_ptr_reset(&backref[b]); g_inlib = 0;
+        PROBE("clear_callback_locks_back_reference");
+    }
     CB_LEAVE();
 }
 static void clear0(void *p, void *q) { (void)q; clear_common(0, p); }
@@ -593,6 +611,8 @@ static void c_exec(const plan_t *p)
         for (e = 0; e < n; e++) { if (ids[e] == simheap_id(baddr[b])) bpayload[b] = ids[e]; else bbook[b] = ids[e]; }
         memc_payload_write(baddr[b], PMAGIC + (uint64_t)b);
         set_owner(&root[b], b);
+        cstl_weak_ptr_init(&backref[b]); has_backref[b] = 0;
+        if (p->cfg[CF_SELFREF] >> b & 1) { g_inlib = 1; cstl_weak_ptr_from(&backref[b], &root[b].p); g_inlib = 0; has_backref[b] = 1; }
     }
     for (t = 0; t < K; t++) {
         uint64_t bits = p->cfg[CF_INIT0 + t];
@@ -684,6 +704,7 @@ static void c_gen(prng_t *r, int mode, plan_t *p)
     p->cfg[CF_NBLK] = (uint64_t)nb;
     p->cfg[CF_PCTD] = prng_below(r, 4);
     p->cfg[CF_SWITCH_PM] = 50 + prng_below(r, 600);
+    p->cfg[CF_SELFREF] = prng_chance(r, 1, 3) ? 1 + prng_below(r, 3) : 0;
     p->cfg[CF_MAINKEEPS] = prng_chance(r, 1, 5) ? prng_below(r, 4) : 0;
     if (scenario >= 6) {
         /* the canonical race family, one operation per thread: `nown` owners each reset, everybody else locks a
